@@ -12,6 +12,7 @@ import (
 	"os/exec"
 	"path/filepath"
 	"sort"
+	"strconv"
 	"strings"
 	"sync"
 	"time"
@@ -97,6 +98,9 @@ type segIn struct {
 	Orgs          []int64        `json:"orgs"`
 	Names         []string       `json:"names,omitempty"` // alias store: the names every snapshot asks about
 	CleanShutdown bool           `json:"clean_shutdown"`
+	// alias store: tenants (<> 0) whose alias directory aliases/<org>/ the deployment provides
+	// (siglens itself never creates it; tenant 0's files lie in aliases/)
+	AliasDirs []int64 `json:"alias_dirs,omitempty"`
 }
 
 type segOut struct {
@@ -148,6 +152,13 @@ func workerMain(args []string) {
 		if err := vtable.InitVTable(func() []int64 { return orgs }); err != nil {
 			out.Err = err.Error()
 			return
+		}
+		for _, o := range in.AliasDirs {
+			// empty in the first segment, so creating it after the start is the same as before it
+			if err := os.MkdirAll(vtable.VTableAliasesDir+strconv.FormatInt(o, 10), 0o764); err != nil {
+				out.Err = err.Error()
+				return
+			}
 		}
 	case "adb":
 		alertsHandler.VerifQuietScheduler()
@@ -370,6 +381,8 @@ type scenario struct {
 	Segs  [][]kOp `json:"segments"`
 	Clean []bool  `json:"clean_shutdown,omitempty"`
 	Names []string `json:"names,omitempty"`
+	// alias store: tenants (<> 0) that have an alias directory
+	AliasDirs []int64 `json:"alias_dirs,omitempty"`
 	// known-class stream whose defect is a request that never returns: class reported on a time-out
 	HangClass string `json:"hang_class,omitempty"`
 
@@ -386,7 +399,7 @@ func (sc *scenario) run(self, work string, idx int) {
 	ids := map[int]string{}
 	sc.hung = -1
 	for i, seg := range sc.Segs {
-		in := segIn{Store: sc.Store, Dir: dir + "/data", Ops: seg, IDs: ids, Orgs: sc.Orgs, Names: sc.Names}
+		in := segIn{Store: sc.Store, Dir: dir + "/data", Ops: seg, IDs: ids, Orgs: sc.Orgs, Names: sc.Names, AliasDirs: sc.AliasDirs}
 		if i < len(sc.Clean) {
 			in.CleanShutdown = sc.Clean[i]
 		}
@@ -1720,6 +1733,111 @@ func genAlias(r *vhlib.Rng, n int, stream string) []*scenario {
 	return scs
 }
 
+// genAliasOrgs: SEVERAL tenants that own aliases.  The alias directory aliases/<org>/ of a tenant
+// other than 0 is a fact of the deployment (siglens never creates it): the scenario says which
+// tenants have one (AliasDirs) and the worker provides it.  Tenants share index names and alias
+// names on purpose (per-tenant files of the same name must stay apart), every segment ends either
+// with a kill or with the clean shutdown (FlushAliasMapToFile: the write-back of the in-memory map),
+// and after the last restart every tenant reads everything back.
+//   stream "orgs":          random interleaving of 3 tenants, kill / clean shutdown at random
+//   stream "orgs_shutdown": directed - every tenant writes a few aliases, clean shutdown + start,
+//                           full read-back, a second round of writes by some tenants, again
+func genAliasOrgs(r *vhlib.Rng, n int, stream string) []*scenario {
+	idxs, als := aliasIdxs[:4], aliasAls[:4]
+	names := append(append([]string{}, idxs...), als...)
+	orgs := []int64{0, 5, 7}
+	var scs []*scenario
+	readAll := func(ops []kOp, who []int64) []kOp {
+		for _, o := range who {
+			for _, ix := range idxs {
+				ops = append(ops, kOp{Op: "agetidx", Org: o, Name: ix})
+			}
+			for _, al := range als {
+				ops = append(ops, kOp{Op: "aisalias", Org: o, Alias: al})
+			}
+		}
+		return ops
+	}
+	for i := 0; i < n; i++ {
+		// which tenants have a directory: mostly both, sometimes one (the other's adds are refused)
+		dirs := []int64{5, 7}
+		switch x := r.Intn(10); {
+		case x < 2:
+			dirs = []int64{5}
+		case x < 3:
+			dirs = []int64{7}
+		}
+		var ops []kOp
+		cuts := map[int]bool{}
+		cleanAt := map[int]bool{} // cut position -> the segment ending there shuts down cleanly
+		if stream == "orgs_shutdown" {
+			rounds := r.Range(1, 2)
+			for rd := 0; rd < rounds; rd++ {
+				for _, o := range orgs {
+					if rd > 0 && r.Chance(40) {
+						continue // this tenant does nothing in the second round
+					}
+					k := r.Range(1, 3)
+					for j := 0; j < k; j++ {
+						ops = append(ops, kOp{Op: "aadd", Org: o, Name: vhlib.Pick(r, idxs[:3]), Alias: vhlib.Pick(r, als[:3])})
+					}
+					if r.Chance(30) {
+						ops = append(ops, kOp{Op: "aremove", Org: o, Name: vhlib.Pick(r, idxs[:3]), Alias: vhlib.Pick(r, als[:3])})
+					}
+				}
+				cuts[len(ops)], cleanAt[len(ops)] = true, true
+				ops = readAll(ops, orgs)
+			}
+		} else {
+			l := r.Range(8, 22)
+			for k := 0; k < l; k++ {
+				org := orgs[r.Intn(3)]
+				ap := als
+				if r.Chance(50) {
+					ap = als[:2]
+				}
+				switch x := r.Intn(100); {
+				case x < 45:
+					op := "aadd"
+					if r.Chance(20) {
+						op = "aaddpost"
+					}
+					ops = append(ops, kOp{Op: op, Org: org, Name: vhlib.Pick(r, idxs), Alias: vhlib.Pick(r, ap)})
+				case x < 62:
+					ops = append(ops, kOp{Op: "aremove", Org: org, Name: vhlib.Pick(r, idxs), Alias: vhlib.Pick(r, ap)})
+				case x < 82:
+					ops = append(ops, kOp{Op: "agetidx", Org: org, Name: vhlib.Pick(r, names)})
+				default:
+					ops = append(ops, kOp{Op: "aisalias", Org: org, Alias: vhlib.Pick(r, ap)})
+				}
+				if r.Chance(14) {
+					cuts[len(ops)], cleanAt[len(ops)] = true, r.Chance(60)
+				}
+			}
+			cuts[len(ops)], cleanAt[len(ops)] = true, r.Chance(70)
+			ops = readAll(ops, orgs)
+		}
+		segs := splitSegs(ops, cuts)
+		// Clean[j]: segment j ends with a clean shutdown; the cut positions in increasing order
+		// are the ends of the segments 0, 1, ...
+		var pos []int
+		for c, on := range cuts {
+			if on && c > 0 && c < len(ops) {
+				pos = append(pos, c)
+			}
+		}
+		sort.Ints(pos)
+		clean := make([]bool, len(segs))
+		for j := range clean {
+			if j < len(pos) {
+				clean[j] = cleanAt[pos[j]]
+			}
+		}
+		scs = append(scs, &scenario{Store: "alias", Class: stream, Orgs: orgs, AliasDirs: dirs, Names: names, Segs: segs, Clean: clean})
+	}
+	return scs
+}
+
 func coqSet(xs []string) string {
 	sort.Strings(xs)
 	items := make([]string, len(xs))
@@ -1761,6 +1879,40 @@ func checkAlias(sc *scenario, sum *vhlib.Summary) *verdict {
 		v.fails++
 		sum.Fail(class, detail, map[string]interface{}{"scenario": sc, "failing_op_index": k})
 	}
+	hasDir := func(org int64) bool {
+		if org == 0 {
+			return true
+		}
+		for _, d := range sc.AliasDirs {
+			if d == org {
+				return true
+			}
+		}
+		return false
+	}
+	// how far the process is from the writes: nothing / a restart / a clean shutdown + restart
+	when := func() string {
+		if shut {
+			return "_after_shutdown_restart"
+		}
+		if epoch > 0 {
+			return "_after_restart"
+		}
+		return ""
+	}
+	// tenant isolation: a pair (index, alias) that tenant org reads although it never wrote it,
+	// while ANOTHER tenant holds it (or held it): "" or a description of the other tenant's pair
+	foreign := func(org int64, ix, al string) string {
+		if fwd[org][ix][al] || everHeld[pair{org, al, ix}] {
+			return ""
+		}
+		for _, o2 := range sc.Orgs {
+			if o2 != org && (fwd[o2][ix][al] || everHeld[pair{o2, al, ix}]) {
+				return fmt.Sprintf("tenant %d never wrote the pair index %q / alias %q, tenant %d did", org, ix, al, o2)
+			}
+		}
+		return ""
+	}
 	var lastWrite kOp
 	for k, f := range sc.flat() {
 		if f.Restart {
@@ -1780,8 +1932,9 @@ func checkAlias(sc *scenario, sum *vhlib.Summary) *verdict {
 		case "aadd", "aaddpost":
 			ack := res.Status == 200
 			if f.Op == "aaddpost" {
-				// the POST handler answers 200 "acknowledged" even when the action failed
-				ack = f.Org == 0
+				// the POST handler answers 200 "acknowledged" even when the action failed (no alias
+				// directory for the tenant)
+				ack = hasDir(f.Org)
 			}
 			if ack {
 				if fwd[f.Org][f.Name] == nil {
@@ -1818,6 +1971,14 @@ func checkAlias(sc *scenario, sum *vhlib.Summary) *verdict {
 			v.obs = append(v.obs, "ASet "+coqSet(got))
 			want := sortedKeys(fwd[f.Org][f.Name])
 			sort.Strings(got)
+			if !stop && res.Status == 200 {
+				for _, a := range got {
+					if why := foreign(f.Org, f.Name, a); why != "" && !stop {
+						fail("alias_of_other_tenant_visible"+when(), fmt.Sprintf("GET %s/_alias tenant %d: read %q, last written %q: %s", f.Name, f.Org, got, want, why), k)
+						stop = true
+					}
+				}
+			}
 			if !stop && (res.Status != 200 || strings.Join(got, "\x00") != strings.Join(want, "\x00")) && !shut {
 				fail("alias_forward_read_differs_from_last_write", fmt.Sprintf("GET %s/_alias tenant %d: read %q, last written %q", f.Name, f.Org, got, want), k)
 				stop = true
@@ -1866,9 +2027,28 @@ func checkAlias(sc *scenario, sum *vhlib.Summary) *verdict {
 					continue
 				}
 				d := fmt.Sprintf("after op %d (%s %s/%s tenant %d): GetAliasesAsArray(%q, tenant %d) = %q, last written %q", k, f.Op, f.Name, f.Alias, f.Org, n, org, got, want)
+				leak := ""
+				for _, a := range got {
+					if why := foreign(org, n, a); why != "" && leak == "" {
+						leak = why
+					}
+				}
+				if leak != "" {
+					fail("alias_of_other_tenant_visible"+when(), d+": "+leak, k)
+					stop = true
+					break
+				}
 				if shut {
-					known("alias_shutdown_flush_writes_reversed_files", d+" (after a clean shutdown: FlushAliasMapToFile wrote <alias>.json holding the index names)")
-					continue
+					// the signature of the repaired defect: the file <n>.json holds the names of the INDEXES
+					// that have the alias n
+					reversed := false
+					for _, x := range got {
+						reversed = reversed || spec[x][n]
+					}
+					if reversed {
+						known("alias_shutdown_flush_writes_reversed_files", d+" (after a clean shutdown: FlushAliasMapToFile wrote <alias>.json holding the index names)")
+						continue
+					}
 				}
 				cl := "alias_forward_read_differs_from_last_write"
 				if cause.Name != n && cause.Op != "" {
@@ -1922,6 +2102,8 @@ func checkAlias(sc *scenario, sum *vhlib.Summary) *verdict {
 				cl := "alias_resolves_to_index_never_written"
 				if everHeld[pair{org, a, ix}] {
 					cl = "alias_removed_still_resolves"
+				} else if why := foreign(org, ix, a); why != "" {
+					cl, d = "alias_of_other_tenant_visible"+when(), d+": "+why
 				}
 				fail(cl, d, k)
 				stop = true
@@ -2451,6 +2633,9 @@ func runStores(cfg vhlib.Config, r *vhlib.Rng, sum *vhlib.Summary) {
 	scs = append(scs, genDashTree(r.Fork(), 4*mult, "tree_path_reuse")...)
 	scs = append(scs, genAlias(r.Fork(), 6*mult, "alias_restart")...)
 	scs = append(scs, genAlias(r.Fork(), 6*mult, "alias_shutdown")...)
+	// several tenants that own aliases (appended last: the streams above keep their random forks)
+	scs = append(scs, genAliasOrgs(r.Fork(), 24*mult, "orgs")...)
+	scs = append(scs, genAliasOrgs(r.Fork(), 16*mult, "orgs_shutdown")...)
 
 	work := filepath.Join(cfg.Out, "kv")
 	_ = os.MkdirAll(work, 0o755)
@@ -2547,7 +2732,14 @@ func runStores(cfg vhlib.Config, r *vhlib.Rng, sum *vhlib.Summary) {
 		nm := fmt.Sprintf("sc_%d", i)
 		typ := "list op * list out"
 		if sc.Store == "alias" {
-			typ = "list aop * list aout"
+			// the tenants with an alias directory, then the history
+			var ds []string
+			for _, d := range sc.AliasDirs {
+				ds = append(ds, fmt.Sprintf("%d%%N", d))
+			}
+			b.defs = append(b.defs, fmt.Sprintf("Definition %s : list tenant * (list aop * list aout) := (%s, (%s,\n  %s)).\n", nm, vhlib.CoqList(ds), vhlib.CoqList(v.ops), vhlib.CoqList(v.obs)))
+			b.names = append(b.names, nm)
+			continue
 		}
 		b.defs = append(b.defs, fmt.Sprintf("Definition %s : %s := (%s,\n  %s).\n", nm, typ, vhlib.CoqList(v.ops), vhlib.CoqList(v.obs)))
 		b.names = append(b.names, nm)
@@ -2579,7 +2771,7 @@ func runStores(cfg vhlib.Config, r *vhlib.Rng, sum *vhlib.Summary) {
 				hi = len(b.names)
 			}
 			sum.WriteCaseFile(cfg.Out, fmt.Sprintf("cases_%s_%d", st, sh), "From SigM Require Import Base KvStore AlertCheck.\n",
-				strings.Join(b.defs[lo:hi], ""), fmt.Sprintf("scen_bad (fun p => %s (fst p) (snd p)) %s 0", fn, vhlib.CoqList(b.names[lo:hi])), hi-lo)
+				strings.Join(b.defs[lo:hi], ""), fmt.Sprintf("scen_bad (fun p => %s) %s 0", map[bool]string{true: "alias_bad (fst p) (fst (snd p)) (snd (snd p))", false: fn + " (fst p) (snd p)"}[st == "alias"], vhlib.CoqList(b.names[lo:hi])), hi-lo)
 		}
 	}
 }
